@@ -1,6 +1,9 @@
 package sim
 
-import "sort"
+import (
+	"encoding/json"
+	"sort"
+)
 
 // Online history generator: draws the next op from the per-run PRNG stream
 // while looking at the model, executes it, and records the concrete op list.
@@ -17,6 +20,7 @@ type Profile struct {
 	MapGetEvery int
 	SweepEvery  int
 	Scenarios   float64 // probability per op to start a directed table-lifecycle scenario
+	Echo        float64 // probability that the history before a Reset is repeated right after it
 	MinOps      int
 	MaxOps      int
 	MaxEntities int
@@ -62,6 +66,7 @@ type Gen struct {
 	kinds   []string
 	faultOn map[string]bool
 	scen    *scenario
+	echo    []Op // ops queued for repetition after a Reset
 }
 
 // DrawConfig draws the per-run configuration (swarm style).
@@ -343,6 +348,35 @@ func sortInts(a []int) {
 
 // Next draws the next op.
 func (g *Gen) Next() Op {
+	if len(g.echo) > 0 {
+		op := g.echo[0]
+		g.echo = g.echo[1:]
+		return op
+	}
+	op := g.next()
+	if op.K == KReset && g.P.Echo > 0 && g.R.Chance(g.P.Echo) {
+		// The history since the previous Reset once more on the reset world: the same handles,
+		// archetypes and targets meet whatever the Reset left behind.
+		start := 0
+		for i := len(g.Ops) - 1; i >= 0; i-- {
+			if g.Ops[i].K == KReset {
+				start = i + 1
+				break
+			}
+		}
+		n := min(len(g.Ops)-start, 30+g.R.Intn(60))
+		if b, err := json.Marshal(g.Ops[start : start+n]); err == nil && n > 0 {
+			var cp []Op
+			if json.Unmarshal(b, &cp) == nil {
+				g.echo = cp
+				g.S.C.Faults["history_repeated_after_reset"]++
+			}
+		}
+	}
+	return op
+}
+
+func (g *Gen) next() Op {
 	m := g.S.M
 	if g.scen != nil && (!g.S.locked() || g.scen.phase >= 10) {
 		if op, ok := g.nextScenario(); ok {
@@ -739,6 +773,7 @@ func (g *Gen) genFilter() Op {
 	}
 	if g.R.Chance(0.15) {
 		spec.Excl = true
+		spec.XFirst = len(spec.With) > 0 && g.R.Chance(0.5)
 	} else if g.R.Chance(0.4) {
 		spec.Without = g.someTypes(g.R.Range(1, 2), nil)
 	}
